@@ -42,6 +42,11 @@ impl<'a> ParseState<'a> {
         // We are eschewing mainly the utf-8 codepoint check here,
         // because the caller can be sure that everything is fine.
 
+        #[cfg(peginator_verif)]
+        assert!(
+            self.partial_string.is_char_boundary(length),
+            "peginator_verif: advance({length}) is not on a char boundary of the remaining input"
+        );
         if length > self.partial_string.len() {
             // This should be optimized out in most cases
             panic!("String length overrun in advance()")
